@@ -46,13 +46,32 @@ def setup_net():
 
 # ----------------------------------------------------------------------------- http helpers
 
+def _select(rs, ws, xs, timeout):
+    """select.select without its limit on descriptor numbers (a long thorough run opens thousands of sockets and pipes)"""
+    p = select.poll()
+    fds = {}
+    for s_ in rs:
+        fds[s_.fileno()] = fds.get(s_.fileno(), 0) | select.POLLIN
+    for s_ in ws:
+        fds[s_.fileno()] = fds.get(s_.fileno(), 0) | select.POLLOUT
+    for fd, ev in fds.items():
+        if fd < 0:
+            raise OSError("closed socket")
+        p.register(fd, ev)
+    got = dict(p.poll(None if timeout is None else max(0, int(timeout * 1000) + 1)))
+    bad = select.POLLERR | select.POLLHUP | select.POLLNVAL
+    r = [s_ for s_ in rs if got.get(s_.fileno(), 0) & (select.POLLIN | bad)]
+    w = [s_ for s_ in ws if got.get(s_.fileno(), 0) & (select.POLLOUT | bad)]
+    return r, w, []
+
+
 def read_until(sock, buf, marker, timeout):
     end = time.time() + timeout
     while marker not in buf:
         left = end - time.time()
         if left <= 0:
             return buf, False
-        r, _, _ = select.select([sock], [], [], left)
+        r, _, _ = _select([sock], [], [], left)
         if not r:
             return buf, False
         try:
@@ -65,23 +84,37 @@ def read_until(sock, buf, marker, timeout):
     return buf, True
 
 
-def read_n(sock, buf, n, timeout):
+def read_n(sock, buf, n, timeout, rate=None):
+    """rate: bytes per second the reader drains at (a slow host), None = as fast as it arrives"""
     end = time.time() + timeout
-    while len(buf) < n:
+    t0 = time.time()
+    acc = bytearray(buf)
+    got0 = len(acc)
+    ok = True
+    while len(acc) < n:
+        if rate:
+            ahead = (len(acc) - got0) / float(rate) - (time.time() - t0)
+            if ahead > 0:
+                time.sleep(min(ahead, 0.25))
+                continue
         left = end - time.time()
         if left <= 0:
-            return buf, False
-        r, _, _ = select.select([sock], [], [], left)
+            ok = False
+            break
+        r, _, _ = _select([sock], [], [], left)
         if not r:
-            return buf, False
+            ok = False
+            break
         try:
-            d = sock.recv(min(1 << 20, n - len(buf)))
+            d = sock.recv(min((1 << 16) if rate else (1 << 20), n - len(acc)))
         except (ConnectionResetError, OSError):
-            return buf, False
+            ok = False
+            break
         if not d:
-            return buf, False
-        buf += d
-    return buf, True
+            ok = False
+            break
+        acc += d
+    return bytes(acc), ok
 
 
 def parse_head(head):
@@ -107,7 +140,7 @@ def hget(headers, name):
     return None
 
 
-def read_body(sock, buf, headers, timeout, allow_close=False, no_body=False):
+def read_body(sock, buf, headers, timeout, allow_close=False, no_body=False, rate=None):
     """returns (body, rest, ok, raw_body_bytes)"""
     if no_body:
         return b"", buf, True, b""
@@ -140,7 +173,7 @@ def read_body(sock, buf, headers, timeout, allow_close=False, no_body=False):
                     buf = buf[j + 2:]
                     if not tl:
                         return body, buf, True, raw
-            buf, ok = read_n(sock, buf, size + 2, timeout)
+            buf, ok = read_n(sock, buf, size + 2, timeout, rate)
             if not ok:
                 return body + buf[:size], b"", False, raw + buf
             body += buf[:size]
@@ -151,12 +184,12 @@ def read_body(sock, buf, headers, timeout, allow_close=False, no_body=False):
             n = int(cl)
         except ValueError:
             return b"", buf, False, b""
-        buf, ok = read_n(sock, buf, n, timeout)
+        buf, ok = read_n(sock, buf, n, timeout, rate)
         return buf[:n], buf[n:], ok, buf[:n]
     if allow_close:
         # read until close
         while True:
-            r, _, _ = select.select([sock], [], [], timeout)
+            r, _, _ = _select([sock], [], [], timeout)
             if not r:
                 return buf, b"", False, buf
             try:
@@ -219,7 +252,9 @@ class MockHosts:
                 head = buf[:i]
                 rest = buf[i + 4:]
                 start, headers = parse_head(head)
-                body, rest2, ok, rawbody = read_body(c, rest, headers, 60)
+                # a host that drains an upload slowly: the caller names the rate (bytes/s) in a header the agent relays untouched
+                drain = hget(headers, b"x-verif-drain")
+                body, rest2, ok, rawbody = read_body(c, rest, headers, 60, rate=(int(drain) if drain and drain.isdigit() else None))
                 raw = head + b"\r\n\r\n" + rawbody
                 parts = start.split(b" ")
                 rec = {"host": label, "conn": cid, "partial": not ok, "raw": raw, "start": start,
@@ -325,11 +360,45 @@ class ClientConn:
         self.timeout = timeout
 
     def send(self, raw):
+        if len(raw) <= (1 << 20):
+            try:
+                self.s.sendall(raw)
+                return True
+            except OSError:
+                return False
+        # a long upload: whatever the server says meanwhile is read while sending (a server that refuses the request answers and
+        # closes before the upload is over; the reset that follows would otherwise take the answer with it)
+        view = memoryview(raw)
+        pos = 0
+        self.s.setblocking(False)
         try:
-            self.s.sendall(raw)
-            return True
-        except OSError:
-            return False
+            end = time.time() + 300
+            while pos < len(view) and time.time() < end:
+                r, w, _ = _select([self.s], [self.s], [], 5.0)
+                if r:
+                    try:
+                        d = self.s.recv(1 << 16)
+                    except BlockingIOError:
+                        d = None
+                    except OSError:
+                        return bool(self.buf)
+                    if d == b"":
+                        return bool(self.buf)
+                    if d:
+                        self.buf += d
+                if w:
+                    try:
+                        pos += self.s.send(view[pos:pos + (1 << 20)])
+                    except BlockingIOError:
+                        pass
+                    except OSError:
+                        return bool(self.buf)
+            return pos >= len(view)
+        finally:
+            try:
+                self.s.settimeout(self.timeout)
+            except OSError:
+                pass
 
     def read_response(self, method=b"GET", timeout=None):
         timeout = timeout or self.timeout
